@@ -16,16 +16,17 @@ Variable F_eqb : F -> F -> bool.
 Variable F_of_dec : dec -> F.
 Variable validate_ok : obj F -> bool.            (* GeneratedsSuperSuper.validate(): any *)
 Variable setup_nml_cell : obj F -> obj F.        (* Cell.setup_nml_cell(): any *)
+Variable str_ok : obj F -> bool.                 (* str(component) returns: any *)
 Variable msf : string -> list mspec.             (* _get_members() per class: any tables, any order *)
 Variable T : tables.                             (* constructor tables: any *)
 Variable enabled : bool.                         (* neuroml.build_time_validation.ENABLED *)
 
-Notation add := (add_with F F_eqb F_of_dec validate_ok setup_nml_cell true msf T enabled).
-Notation add_orig := (add_with F F_eqb F_of_dec validate_ok setup_nml_cell false msf T enabled).
-Notation any_add fixed := (add_with F F_eqb F_of_dec validate_ok setup_nml_cell fixed msf T enabled).
+Notation add := (add_with F F_eqb F_of_dec validate_ok setup_nml_cell str_ok true msf T enabled).
+Notation add_orig := (add_with F F_eqb F_of_dec validate_ok setup_nml_cell str_ok false msf T enabled).
+Notation any_add fixed := (add_with F F_eqb F_of_dec validate_ok setup_nml_cell str_ok fixed msf T enabled).
 Notation targets p o := (targets_of (msf (o_cls F p)) (o_cls F o)).
 Notation fieldv p m := (lookup m (o_fields F p)).
-Notation history fixed := (run_adds F F_eqb F_of_dec validate_ok setup_nml_cell fixed msf T enabled).
+Notation history fixed := (run_adds F F_eqb F_of_dec validate_ok setup_nml_cell str_ok fixed msf T enabled).
 Notation equal_to o := (obj_eqb F F_eqb F_of_dec o).
 Notation truthy := (py_truthy F F_eqb F_of_dec).
 
@@ -57,7 +58,7 @@ Theorem C10_stored_single : forall fixed p o hint force validate t v,
   let r := any_add fixed p (ChObj F o) hint force validate in
   fieldv (ao_parent F r) (ms_name t) = Some (VObj o) /\
   (ao_res F r = Ret (Some o) \/ (ao_res F r = Err ExValidation /\ enabled && validate = true)).
-Proof. intros fixed. exact (add_stores_single F F_eqb F_of_dec validate_ok setup_nml_cell fixed msf T enabled). Qed.
+Proof. intros fixed. exact (add_stores_single F F_eqb F_of_dec validate_ok setup_nml_cell str_ok fixed msf T enabled). Qed.
 
 (* ... (list member: new or forced) appended at the end *)
 Theorem C10_stored_list : forall fixed p o hint force validate t l,
@@ -66,27 +67,27 @@ Theorem C10_stored_list : forall fixed p o hint force validate t l,
   let r := any_add fixed p (ChObj F o) hint force validate in
   fieldv (ao_parent F r) (ms_name t) = Some (VObjs (l ++ [o])%list) /\
   (ao_res F r = Ret (Some o) \/ (ao_res F r = Err ExValidation /\ enabled && validate = true)).
-Proof. intros fixed. exact (add_stores_list F F_eqb F_of_dec validate_ok setup_nml_cell fixed msf T enabled). Qed.
+Proof. intros fixed. exact (add_stores_list F F_eqb F_of_dec validate_ok setup_nml_cell str_ok fixed msf T enabled). Qed.
 
 (* ... and in no other: every other member keeps its value, whatever the outcome of the call *)
 Theorem C10_frame : forall fixed p o hint force validate m,
   (forall t, chosen (targets p o) hint = Some t -> ms_name t <> m) ->
   fieldv (ao_parent F (any_add fixed p (ChObj F o) hint force validate)) m = fieldv p m.
-Proof. intros fixed. exact (add_frame F F_eqb F_of_dec validate_ok setup_nml_cell fixed msf T enabled). Qed.
+Proof. intros fixed. exact (add_frame F F_eqb F_of_dec validate_ok setup_nml_cell str_ok fixed msf T enabled). Qed.
 
 (* no member of the child's type: raises, parent unchanged *)
 Theorem C10_none : forall fixed p o hint force validate,
   targets p o = [] ->
   let r := any_add fixed p (ChObj F o) hint force validate in
   ao_res F r = Err (ExNoMember (o_cls F o) (o_cls F p)) /\ ao_parent F r = p /\ ao_warn F r = [].
-Proof. intros fixed. exact (add_none F F_eqb F_of_dec validate_ok setup_nml_cell fixed msf T enabled). Qed.
+Proof. intros fixed. exact (add_none F F_eqb F_of_dec validate_ok setup_nml_cell str_ok fixed msf T enabled). Qed.
 
 (* several qualify and no hint is given: raises, parent unchanged *)
 Theorem C10_ambiguous : forall fixed p o hint force validate,
   (2 <= length (targets p o))%nat -> falsy_hint hint = true ->
   let r := any_add fixed p (ChObj F o) hint force validate in
   ao_res F r = Err (ExAmbiguous (map ms_name (targets p o))) /\ ao_parent F r = p.
-Proof. intros fixed. exact (add_ambiguous F F_eqb F_of_dec validate_ok setup_nml_cell fixed msf T enabled). Qed.
+Proof. intros fixed. exact (add_ambiguous F F_eqb F_of_dec validate_ok setup_nml_cell str_ok fixed msf T enabled). Qed.
 
 (* several qualify and the hint names none of them: the repaired add() raises, parent unchanged *)
 Theorem C10_badhint : forall p o hint force validate,
@@ -94,7 +95,7 @@ Theorem C10_badhint : forall p o hint force validate,
   (forall t, In t (targets p o) -> ms_name t <> hint_str hint) ->
   let r := add p (ChObj F o) hint force validate in
   ao_res F r = Err (ExBadHint (hint_str hint) (map ms_name (targets p o))) /\ ao_parent F r = p.
-Proof. exact (add_badhint_fixed F F_eqb F_of_dec validate_ok setup_nml_cell msf T enabled). Qed.
+Proof. exact (add_badhint_fixed F F_eqb F_of_dec validate_ok setup_nml_cell str_ok msf T enabled). Qed.
 
 (* the code as it is: in that situation it returns normally and stores nothing (for every such input) *)
 Theorem C10_badhint_orig_silent : forall p o hint force validate,
@@ -103,34 +104,36 @@ Theorem C10_badhint_orig_silent : forall p o hint force validate,
   (enabled && validate = false \/ validate_ok p = true) ->
   let r := add_orig p (ChObj F o) hint force validate in
   ao_res F r = Ret (Some o) /\ ao_parent F r = p.
-Proof. exact (add_badhint_orig_silent F F_eqb F_of_dec validate_ok setup_nml_cell msf T enabled). Qed.
+Proof. exact (add_badhint_orig_silent F F_eqb F_of_dec validate_ok setup_nml_cell str_ok msf T enabled). Qed.
 
 (* whenever add() raises anything but a failed validation of the parent, the parent is unchanged
    (any child argument: component, class, class name) *)
 Theorem C10_raises_unchanged : forall fixed p child hint force validate e,
   let r := any_add fixed p child hint force validate in
   ao_res F r = Err e -> e <> ExValidation -> ao_parent F r = p.
-Proof. intros fixed. exact (add_err_unchanged F F_eqb F_of_dec validate_ok setup_nml_cell fixed msf T enabled). Qed.
+Proof. intros fixed. exact (add_err_unchanged F F_eqb F_of_dec validate_ok setup_nml_cell str_ok fixed msf T enabled). Qed.
 
-(* an equal child already present / an occupied single-valued member: refused with a warning, nothing changes *)
+(* an equal child already present / an occupied single-valued member: refused with a warning, nothing changes
+   (the duplicate warning prints the child: when its __str__ raises, that exception comes out instead) *)
 Theorem C10_dup : forall fixed p o hint validate t l,
   chosen (targets p o) hint = Some t -> ms_container t = true -> fieldv p (ms_name t) = Some (VObjs l) ->
   existsb (equal_to o) l = true ->
   let r := any_add fixed p (ChObj F o) hint false validate in
-  ao_parent F r = p /\ In (WDuplicate (ms_name t)) (ao_warn F r).
-Proof. intros fixed. exact (add_dup_refused F F_eqb F_of_dec validate_ok setup_nml_cell fixed msf T enabled). Qed.
+  ao_parent F r = p /\
+  (if str_ok o then In (WDuplicate (ms_name t)) (ao_warn F r) else ao_res F r = Err ExStr).
+Proof. intros fixed. exact (add_dup_refused F F_eqb F_of_dec validate_ok setup_nml_cell str_ok fixed msf T enabled). Qed.
 
 Theorem C10_occupied : forall fixed p o hint validate t v,
   chosen (targets p o) hint = Some t -> ms_container t = false -> fieldv p (ms_name t) = Some v ->
   truthy v = true ->
   let r := any_add fixed p (ChObj F o) hint false validate in
   ao_parent F r = p /\ In (WOccupied (ms_name t)) (ao_warn F r).
-Proof. intros fixed. exact (add_occupied_refused F F_eqb F_of_dec validate_ok setup_nml_cell fixed msf T enabled). Qed.
+Proof. intros fixed. exact (add_occupied_refused F F_eqb F_of_dec validate_ok setup_nml_cell str_ok fixed msf T enabled). Qed.
 
 (* the call returns the object it stored *)
 Theorem C10_returns : forall fixed p o hint force validate x,
   ao_res F (any_add fixed p (ChObj F o) hint force validate) = Ret (Some x) -> x = o.
-Proof. intros fixed. exact (add_returns F F_eqb F_of_dec validate_ok setup_nml_cell fixed msf T enabled). Qed.
+Proof. intros fixed. exact (add_returns F F_eqb F_of_dec validate_ok setup_nml_cell str_ok fixed msf T enabled). Qed.
 
 (* add(class or class name, **kwargs) = the factory, then add(component); a factory error leaves the parent alone *)
 Theorem C10_class_child : forall fixed p c kw hint force validate,
@@ -145,8 +148,8 @@ Theorem C10_class_child : forall fixed p c kw hint force validate,
 Proof.
   intros fixed p c kw hint force validate.
   destruct (component_factory_with F F_of_dec validate_ok setup_nml_cell (msf c) T enabled validate c kw) as [[o|e] w0] eqn:E.
-  - exact (add_cls_ok F F_eqb F_of_dec validate_ok setup_nml_cell fixed msf T enabled p c kw hint force validate o w0 E).
-  - exact (add_cls_err F F_eqb F_of_dec validate_ok setup_nml_cell fixed msf T enabled p c kw hint force validate e w0 E).
+  - exact (add_cls_ok F F_eqb F_of_dec validate_ok setup_nml_cell str_ok fixed msf T enabled p c kw hint force validate o w0 E).
+  - exact (add_cls_err F F_eqb F_of_dec validate_ok setup_nml_cell str_ok fixed msf T enabled p c kw hint force validate e w0 E).
 Qed.
 
 (* the order in which _get_members lists the members cannot matter when member names are unique *)
@@ -158,25 +161,25 @@ Proof. intros ms ms' c hint HP Hnd. exact (chosen_perm _ _ hint (targets_perm ms
 (* ---- after ANY sequence of earlier add() calls (successful, refused or raising; induction over the history) *)
 (* the parent keeps its class, so the same member table applies throughout *)
 Theorem C10_history_class : forall fixed h p, o_cls F (history fixed p h) = o_cls F p.
-Proof. intros fixed h. exact (hist_keeps_class F F_eqb F_of_dec validate_ok setup_nml_cell fixed msf T enabled h). Qed.
+Proof. intros fixed h. exact (hist_keeps_class F F_eqb F_of_dec validate_ok setup_nml_cell str_ok fixed msf T enabled h). Qed.
 
 (* every component sits under a member declared with its class: add() never mis-files a child *)
 Theorem C10_history_typed : forall fixed h p,
   names_functional (msf (o_cls F p)) -> slot_typed F (msf (o_cls F p)) p ->
   slot_typed F (msf (o_cls F p)) (history fixed p h).
-Proof. intros fixed h. exact (hist_keeps_typed F F_eqb F_of_dec validate_ok setup_nml_cell fixed msf T enabled h). Qed.
+Proof. intros fixed h. exact (hist_keeps_typed F F_eqb F_of_dec validate_ok setup_nml_cell str_ok fixed msf T enabled h). Qed.
 
 (* whatever is not a declared member (ids of other kinds, technical fields) is never touched *)
 Theorem C10_history_frame : forall fixed h p m,
   (forall t, In t (msf (o_cls F p)) -> ms_name t <> m) ->
   fieldv (history fixed p h) m = fieldv p m.
-Proof. intros fixed h. exact (hist_frame_nonmember F F_eqb F_of_dec validate_ok setup_nml_cell fixed msf T enabled h). Qed.
+Proof. intros fixed h. exact (hist_frame_nonmember F F_eqb F_of_dec validate_ok setup_nml_cell str_ok fixed msf T enabled h). Qed.
 
 (* list members only ever grow at the end: nothing already added is lost or reordered *)
 Theorem C10_history_lists_grow : forall fixed h p m l,
   list_member (msf (o_cls F p)) m -> fieldv p m = Some (VObjs l) ->
   exists l', fieldv (history fixed p h) m = Some (VObjs (l ++ l')%list).
-Proof. intros fixed h. exact (hist_lists_grow F F_eqb F_of_dec validate_ok setup_nml_cell fixed msf T enabled h). Qed.
+Proof. intros fixed h. exact (hist_lists_grow F F_eqb F_of_dec validate_ok setup_nml_cell str_ok fixed msf T enabled h). Qed.
 End C10.
 
 Print Assumptions C10_chosen_is_declared_for_the_type.
@@ -210,7 +213,7 @@ Theorem C10_badhint_refuted :
   exists p o hint,
     (2 <= length (targets_of (members_now (o_cls unit p)) (o_cls unit o)))%nat /\
     (forall t, In t (targets_of (members_now (o_cls unit p)) (o_cls unit o)) -> ms_name t <> hint) /\
-    let r := add_with unit (fun _ _ => true) (fun _ => tt) (fun _ => true) (fun o => o) false members_now Gen_Bindings.T true
+    let r := add_with unit (fun _ _ => true) (fun _ => tt) (fun _ => true) (fun o => o) (fun _ => true) false members_now Gen_Bindings.T true
                       p (ChObj unit o) (Some hint) false false in
     ao_res unit r = Ret (Some o) /\ ao_parent unit r = p.
 Proof.
@@ -227,7 +230,7 @@ Example C10_example_two_candidates :
 Proof. vm_compute. left. reflexivity. Qed.
 
 Example C10_example_hint_stores :
-  let r := add_with unit (fun _ _ => true) (fun _ => tt) (fun _ => true) (fun o => o) true members_now Gen_Bindings.T true
+  let r := add_with unit (fun _ _ => true) (fun _ => tt) (fun _ => true) (fun o => o) (fun _ => true) true members_now Gen_Bindings.T true
                     gate (ChObj unit rate) (Some "reverse_rate") false false in
   lookup "reverse_rate" (o_fields unit (ao_parent unit r)) = Some (VObj rate)
   /\ lookup "forward_rate" (o_fields unit (ao_parent unit r)) = Some VNone.
